@@ -69,8 +69,12 @@ FUNCS = {
     # ------------------------------------------------------------------------------------------------
     'bp.agent:Agent.recv_bundle': dict(
         self=AG, params={'ctr': CTR}, props=['C10', 'C08'], handler=True,
-        requires=[('has_primary', 'ctr.bundle.primary is not None and unwrap(ctr.bundle.primary).bundle_flags >= 0', [])],
-        modifies=['Agent._seen_bundle_ident', 'Agent._fwd_queue', 'Ctr.actions', 'Ctr.status_reason', 'Ctr.route', 'Ctr.sender',
+        requires=[('has_primary', 'ctr.bundle.primary is not None and unwrap(ctr.bundle.primary).bundle_flags >= 0', []),
+                  # (wire assumption) the CRC type of every decoded block is one of the three defined values; an unknown
+                  # value makes check_crc raise KeyError out of this handler: the bundle is not processed either
+                  ('crc_types_known', 'crc_types_known(ctr.bundle)', [])],
+        modifies=['pkt:PrimaryBlock.crc_value', 'pkt:CanonicalBlock.crc_value', 'pkt:CanonicalBlock.btsd',
+                  'Agent._seen_bundle_ident', 'Agent._fwd_queue', 'Ctr.actions', 'Ctr.status_reason', 'Ctr.route', 'Ctr.sender',
                   'ghost.finished', 'ghost.sched_send', 'ghost.consumed', 'ghost.step_failed'],
         loops={0: dict(invariant=[
             ('agent_state_kept', 'self._seen_bundle_ident == set_add(old(self._seen_bundle_ident), ident_of(ctr)) and '
@@ -79,7 +83,7 @@ FUNCS = {
         ensures=[
             # C08: a bundle with a failing block CRC is dropped before anything is recorded or done
             ('corrupt_dropped_first',
-             'implies(not crc_all_valid(ctr.bundle), self._seen_bundle_ident == old(self._seen_bundle_ident) and '
+             'implies(not old(crc_all_valid(ctr.bundle)), self._seen_bundle_ident == old(self._seen_bundle_ident) and '
              'self._fwd_queue == old(self._fwd_queue) and ctr.actions == old(ctr.actions) and '
              'ghost.finished == old(ghost.finished))', ['C08', 'C10']),
             # C10: own bundles and repeats of a seen identity cause nothing
@@ -92,7 +96,7 @@ FUNCS = {
              'self._seen_bundle_ident == old(self._seen_bundle_ident) and self._fwd_queue == old(self._fwd_queue) and '
              'ctr.actions == old(ctr.actions) and ghost.finished == old(ghost.finished))', ['C10']),
             ('identity_recorded',
-             'implies(crc_all_valid(ctr.bundle) and not is_own(self, ctr), contains(self._seen_bundle_ident, ident_of(ctr)))',
+             'implies(old(crc_all_valid(ctr.bundle)) and not is_own(self, ctr), contains(self._seen_bundle_ident, ident_of(ctr)))',
              ['C10']),
             ('seen_only_grows', 'forall(x, "List[IdentElem]", implies(old(contains(self._seen_bundle_ident, x)), '
                                 'contains(self._seen_bundle_ident, x)))', ['C10']),
